@@ -426,8 +426,8 @@ fn generate(cli: &Cli) -> Vec<Case> {
                     if let Some(i) = sc.client.script.iter().position(|a| matches!(a, Act::EncryptionResponse)) {
                         let mut v = sc.clone();
                         v.adapters.auth_latency = Duration::from_secs(3);
-                        v.client.script.insert(i + 1, Act::Send { label: "flood".into(), out: Out::Frame(vec![0x41u8; 4 << 20]) });
-                        out.push(Case { sc: v, state: format!("{}/login-encryption-response", shape.name), class: "flood-while-a-backend-is-asked", detail: "4MiB-behind-the-encryption-response".into(), must_err: true, refuse_after: None, max_frame });
+                        v.client.script.insert(i + 1, Act::Send { label: "flood".into(), out: Out::Frame(vec![0x41u8; (cli.scaled(4 << 20) as usize).clamp(512 << 10, 4 << 20)]) });
+                        out.push(Case { sc: v, state: format!("{}/login-encryption-response", shape.name), class: "flood-while-a-backend-is-asked", detail: "megabytes-behind-the-encryption-response".into(), must_err: true, refuse_after: None, max_frame });
                     }
                     // a verify token that decrypts correctly under the server key but has another length
                     for n in [0usize, 1, 16, 31, 33, 64, 117] {
@@ -448,8 +448,8 @@ fn generate(cli: &Cli) -> Vec<Case> {
                             // a locale made of separators only, as long as the frame allows: every `_` is a
                             // fall-back step of the lookup; with tables that know neither it nor the default
                             // locale the lookup ends in the application's "cannot find" warning
-                            let many = "_".repeat((max_frame as usize).saturating_sub(120).min(32_000));
-                            let many_parts = "ab_".repeat((max_frame as usize).saturating_sub(120).min(32_000) / 3);
+                            let many = "_".repeat((max_frame as usize).saturating_sub(120).min(12_000));
+                            let many_parts = "ab_".repeat((max_frame as usize).saturating_sub(120).min(12_000) / 3);
                             for (loc, only_de) in locales.iter().map(|l| (*l, false)).chain([(many.as_str(), false), (many.as_str(), true), (many_parts.as_str(), true), ("xx_yy", true)]) {
                                 let mut v = apply(&sc, pos, vec![Out::Pkt(client_information(loc))], false);
                                 v.adapters.discovery = Outcome::Ok(vec![]);
